@@ -17,6 +17,9 @@ type GetSignaturesForAddressParams struct {
 
 func parseGetSignaturesForAddressParams(raw *json.RawMessage) (*GetSignaturesForAddressParams, error) {
 	var params []any
+	if raw == nil {
+		return nil, fmt.Errorf("params are missing")
+	}
 	if err := fasterJson.Unmarshal(*raw, &params); err != nil {
 		return nil, fmt.Errorf("failed to unmarshal params: %w", err)
 	}
